@@ -4,6 +4,7 @@ package main
 
 import (
 	"fmt"
+	"sort"
 	"strings"
 	"sync"
 	"go/ast"
@@ -164,6 +165,18 @@ func (fv *FV) defineVar(e *Env, v *types.Var, val Value, isZero bool) {
 		return
 	}
 	t := v.Type()
+	if fv.localMaps[v] {
+		if val.K != kMap {
+			mt := t.Underlying().(*types.Map)
+			if isZero || fv.freshMapRefs[val.T.S] {
+				val = fv.emptyLocalMap(mt)
+			} else {
+				val = fv.freshLocalMap(mt, v.Name())
+			}
+		}
+		e.vars[v] = val
+		return
+	}
 	if fv.boxed[v] && !isObjectType(t) {
 		r := fv.allocRef(e, v.Name()+"&")
 		fv.storeCell(e, boxComp(t), t, "", val, r)
@@ -190,8 +203,13 @@ func (fv *FV) defineVar(e *Env, v *types.Var, val Value, isZero bool) {
 	if k == kScalar && val.K != kScalar {
 		val = fv.freshValue(t, v.Name())
 	}
-	// interface conversion bookkeeping: remember dynamic type of pointer values
 	val.Type = t
+	if val.K == kScalar && len(val.T.S) > 48 {
+		// name large terms to keep verification conditions small
+		n := fv.s.freshConst(v.Name(), val.T.Sort)
+		fv.s.assume(eq(n, val.T))
+		val.T = n
+	}
 	e.vars[v] = val
 }
 
@@ -253,6 +271,11 @@ func (fv *FV) multi(e *Env, x ast.Expr, n int) []Value {
 			return v.Tuple
 		}
 	case *ast.IndexExpr:
+		if lm, ok := fv.localMapOf(e, x.X); ok {
+			k := fv.expr(e, x.Index)
+			v, present := fv.localMapLoad(lm, fv.typeOf(x.X).Underlying().(*types.Map), k.T)
+			return []Value{v, {K: kScalar, T: present}}
+		}
 		if bt := fv.typeOf(x.X); bt != nil {
 			if mt, ok := bt.Underlying().(*types.Map); ok {
 				m := fv.expr(e, x.X)
@@ -523,17 +546,61 @@ type writeSet struct {
 	vars      map[types.Object]bool
 	heapAll   bool
 	heapComps map[string]bool
+	compBases map[string]map[types.Object]bool // comps written only through these local bases
+	compWide  map[string]bool                  // comps written through something else too
 }
 
 func (fv *FV) writesOf(n ast.Node) *writeSet {
-	ws := &writeSet{vars: map[types.Object]bool{}, heapComps: map[string]bool{}}
+	ws := &writeSet{vars: map[types.Object]bool{}, heapComps: map[string]bool{}, compBases: map[string]map[types.Object]bool{}, compWide: map[string]bool{}}
 	addComps := func(cs []string, all bool) {
 		if all {
 			ws.heapAll = true
 		}
 		for _, c := range cs {
 			ws.heapComps[c] = true
+			ws.compWide[c] = true
 		}
+	}
+	addBased := func(cs []string, all bool, base types.Object) {
+		if all {
+			ws.heapAll = true
+		}
+		for _, c := range cs {
+			ws.heapComps[c] = true
+			if ws.compBases[c] == nil {
+				ws.compBases[c] = map[types.Object]bool{}
+			}
+			ws.compBases[c][base] = true
+		}
+	}
+	// baseOf: x is `v[...]` or `v.f` with v a plain local variable
+	baseOf := func(x ast.Expr) types.Object {
+		var inner ast.Expr
+		switch y := x.(type) {
+		case *ast.IndexExpr:
+			inner = y.X
+			if bt := fv.typeOf(y.X); bt != nil {
+				if _, isArr := bt.Underlying().(*types.Array); isArr {
+					return nil
+				}
+			}
+		case *ast.SelectorExpr:
+			inner = y.X
+			if sel, ok := fv.info.Selections[y]; !ok || len(sel.Index()) != 1 {
+				return nil
+			}
+		default:
+			return nil
+		}
+		id, ok := ast.Unparen(inner).(*ast.Ident)
+		if !ok {
+			return nil
+		}
+		o, ok := fv.info.ObjectOf(id).(*types.Var)
+		if !ok || isPkgLevel(o) || fv.boxed[o] || isObjectType(o.Type()) {
+			return nil
+		}
+		return o
 	}
 	markLHS := func(x ast.Expr) {
 		x = ast.Unparen(x)
@@ -553,7 +620,20 @@ func (fv *FV) writesOf(n ast.Node) *writeSet {
 				}
 			}
 		default:
-			addComps(fv.lhsComps(x))
+			if ix, ok := x.(*ast.IndexExpr); ok {
+				if id, ok := ast.Unparen(ix.X).(*ast.Ident); ok {
+					if o := fv.info.ObjectOf(id); o != nil && fv.localMaps[o] {
+						ws.vars[o] = true
+						return
+					}
+				}
+			}
+			if b := baseOf(x); b != nil {
+				cs, all := fv.lhsComps(x)
+				addBased(cs, all, b)
+			} else {
+				addComps(fv.lhsComps(x))
+			}
 			// a write to an array-typed local's element assigns the local
 			for {
 				switch y := x.(type) {
@@ -574,7 +654,9 @@ func (fv *FV) writesOf(n ast.Node) *writeSet {
 			}
 			if id, ok := x.(*ast.Ident); ok {
 				if o := fv.info.ObjectOf(id); o != nil {
-					ws.vars[o] = true
+					if _, isArr := o.Type().Underlying().(*types.Array); isArr {
+						ws.vars[o] = true
+					}
 				}
 			}
 		}
@@ -595,6 +677,14 @@ func (fv *FV) writesOf(n ast.Node) *writeSet {
 				markLHS(s.Value)
 			}
 		case *ast.CallExpr:
+			if id, ok := ast.Unparen(s.Fun).(*ast.Ident); ok && id.Name == "delete" && len(s.Args) == 2 {
+				if mid, ok := ast.Unparen(s.Args[0]).(*ast.Ident); ok {
+					if o := fv.info.ObjectOf(mid); o != nil && fv.localMaps[o] {
+						ws.vars[o] = true
+						return true
+					}
+				}
+			}
 			addComps(fv.callWriteComps(s))
 		case *ast.CompositeLit:
 			if t := fv.typeOf(s); t != nil {
@@ -653,6 +743,10 @@ func (fv *FV) havocWrites(e *Env, ws *writeSet) {
 			if isObjectType(o.Type()) {
 				continue // object identity is stable; contents are heap
 			}
+			if cur := e.vars[o]; cur.K == kMap {
+				e.vars[o] = fv.freshLocalMap(o.Type().Underlying().(*types.Map), o.Name())
+				continue
+			}
 			e.vars[o] = fv.freshValue(o.Type(), o.Name())
 		}
 	}
@@ -661,9 +755,51 @@ func (fv *FV) havocWrites(e *Env, ws *writeSet) {
 		return
 	}
 	for _, c := range sortedBoolKeys(ws.heapComps) {
-		fv.havocComp(e, c)
+		bases := ws.compBases[c]
+		precise := !ws.compWide[c] && len(bases) > 0
+		for b := range bases {
+			if ws.vars[b] {
+				precise = false // the base variable itself is reassigned in the loop
+			}
+			if _, ok := e.vars[b]; !ok {
+				precise = false
+			}
+		}
+		if !precise {
+			fv.havocComp(e, c)
+			continue
+		}
+		fv.havocCompAt(e, c, bases)
 	}
 	fv.havocAlloc(e)
+}
+
+// havocCompAt forgets component c only at the objects held by the given local
+// variables (the loop writes c through these bases only).
+func (fv *FV) havocCompAt(e *Env, c string, bases map[types.Object]bool) {
+	srt, ok := fv.compSort[c]
+	if !ok {
+		v, ok2 := staticSorts.Load(c)
+		if !ok2 {
+			fv.havocComp(e, c)
+			return
+		}
+		srt = v.(string)
+		fv.compSort[c] = srt
+	}
+	_, inner := arrParts(srt)
+	cur := fv.heapGet(e, c, srt)
+	var objs []types.Object
+	for b := range bases {
+		objs = append(objs, b)
+	}
+	sort.Slice(objs, func(i, j int) bool { return objs[i].Pos() < objs[j].Pos() })
+	for _, b := range objs {
+		cur = store(cur, e.vars[b].T, fv.s.freshConst("hv", inner))
+	}
+	n := fv.s.freshConst(c, srt)
+	fv.s.assume(eq(n, cur))
+	fv.heapSet(e, c, n)
 }
 
 // staticSorts remembers the SMT sort of statically named components so that a
@@ -1100,7 +1236,11 @@ func (fv *FV) bindRangeVars(e *Env, s *ast.RangeStmt, i Term, sl Value, elemT ty
 }
 
 func (fv *FV) rangeMap(e *Env, s *ast.RangeStmt, mt *types.Map, label string, ls *LoopSpec, ord int) {
-	m := fv.expr(e, s.X)
+	_, isLocal := fv.localMapOf(e, s.X)
+	var m Value
+	if !isLocal {
+		m = fv.expr(e, s.X)
+	}
 	ks := mapKeySort(mt)
 	visSort := arrSort(ks, sBool)
 	vis0 := Term{fmt.Sprintf("((as const %s) false)", visSort), visSort}
@@ -1116,7 +1256,13 @@ func (fv *FV) rangeMap(e *Env, s *ast.RangeStmt, mt *types.Map, label string, ls
 	e.loopIdx[len(e.loopIdx)-1] = cnt
 	fv.assumeInvariants(e, ls)
 	head := e.clone()
-	dom := fv.mapDom(head, m.T, mt)
+	var dom Term
+	if isLocal {
+		lm, _ := fv.localMapOf(head, s.X)
+		dom = lm.T
+	} else {
+		dom = fv.mapDom(head, m.T, mt)
+	}
 	// exit: every key currently in the map has been visited
 	exit := head.clone()
 	kq := "k!q"
@@ -1149,8 +1295,14 @@ func (fv *FV) rangeMap(e *Env, s *ast.RangeStmt, mt *types.Map, label string, ls
 	}
 	set(s.Key, Value{K: kScalar, T: k, Type: mt.Key()})
 	if s.Value != nil {
-		v, _ := fv.mapLoad(body, m, mt, Value{K: kScalar, T: k})
-		set(s.Value, v)
+		if isLocal {
+			lm, _ := fv.localMapOf(body, s.X)
+			v, _ := fv.localMapLoad(lm, mt, k)
+			set(s.Value, v)
+		} else {
+			v, _ := fv.mapLoad(body, m, mt, Value{K: kScalar, T: k})
+			set(s.Value, v)
+		}
 	}
 	fr := &jumpFrame{label: label, isLoop: true}
 	fv.frames = append(fv.frames, fr)
